@@ -17,6 +17,7 @@ import (
 	"runtime"
 	"strings"
 	"sync"
+	"time"
 
 	"github.com/theQRL/go-qrllib/common"
 	"github.com/theQRL/go-qrllib/dilithium"
@@ -249,8 +250,23 @@ func scenarioOf(idx []int) (*e2.Scenario, []string) {
 	return sc, exp
 }
 
+var cappedSoFar int
+
 func exploreCase(c *drv.Ctx, i int64, sc *e2.Scenario, exp []string, bound int, mustFail bool, maxExec int64) *e2.Stats {
-	st, v := e2.Explore(sc, bound, exp, maxExec)
+	e2.Progress = c.Tick
+	budget := 15 * time.Second
+	if c.Tier == "thorough" {
+		budget = 120 * time.Second
+	}
+	if cappedSoFar >= 3 {
+		budget = 2 * time.Second // this tree makes every scenario expensive: keep the run bounded
+	}
+	st, v := e2.Explore(sc, bound, exp, maxExec, budget)
+	if st.Capped {
+		cappedSoFar++
+		c.Cap(fmt.Sprintf("scenario time budget reached (bound completed: %d)", st.BoundCompleted))
+	}
+	c.SetAdd("bounds_completed", fmt.Sprint(st.BoundCompleted))
 	c.Eval(st.Executions)
 	c.Count("schedules", st.Executions)
 	c.Count("decision_points", st.DecisionPoints)
@@ -348,6 +364,21 @@ func main() {
 		return
 	}
 	setup()
+	if p := os.Getenv("VERIF_SOLO_FILE"); p != "" {
+		isMaster := true
+		for _, a := range os.Args[1:] {
+			if a == "-worker" || a == "-replay" {
+				isMaster = false
+			}
+		}
+		if _, err := os.Stat(p); err != nil && isMaster {
+			os.Unsetenv("VERIF_SOLO_FILE")
+			loadSolo()
+			b, _ := json.Marshal(solo)
+			os.WriteFile(p, b, 0o644)
+			os.Setenv("VERIF_SOLO_FILE", p)
+		}
+	}
 	nops := len(ops)
 	npairs := nops * (nops + 1) / 2
 	ck := &drv.Check{Property: "C15", Level: "model_checking",
@@ -367,7 +398,7 @@ func main() {
 				sc := &e2.Scenario{Name: canaryOps[i].name + " x2", Reset: verifcanary.Reset, Bodies: []func() string{f, f}}
 				verifcanary.Reset()
 				want := f()
-				st, v := e2.Explore(sc, 2, []string{want, want}, 200000)
+				st, v := e2.Explore(sc, 2, []string{want, want}, 200000, 0)
 				c.Eval(st.Executions)
 				c.Count("schedules", st.Executions)
 				c.Count("preemptive_choices", st.Preemptive)
@@ -389,6 +420,10 @@ func main() {
 			loadSolo()
 			for i := lo; i < hi; i++ {
 				c.At(i)
+				if c.FailCount() >= 2 {
+					c.Count("scenarios_skipped_after_failures", 1)
+					continue
+				}
 				a, b := pairOf(int(i), nops)
 				sc, exp := scenarioOf([]int{a, b})
 				st := exploreCase(c, i, sc, exp, 2, false, 20000)
@@ -425,6 +460,10 @@ func main() {
 			loadSolo()
 			for i := lo; i < hi; i++ {
 				c.At(i)
+				if c.FailCount() >= 2 {
+					c.Count("scenarios_skipped_after_failures", 1)
+					continue
+				}
 				sc, exp := scenarioOf(groups[i])
 				st := exploreCase(c, i, sc, exp, 2, false, 20000)
 				c.Outcome(fmt.Sprintf("outcomes=%d", len(st.Outcomes)))
